@@ -354,3 +354,24 @@ package meta
 //@ func (Config).Validate
 //@   props C12 C07
 //@   ensures result == nil <==> validCfg(c)
+
+// the suffix-SET shortcut: exactly .* plain-literal* (plain literal | alternation of plain literals)
+//@ spec func plainLit(r *syntax.Regexp) bool = r != nil && r.Op == 3 && (r.Flags & 1) == 0 && len(r.Rune) >= 1 && (forall k :: 0 <= k && k < len(r.Rune) ==> r.Rune[k] != 10)
+//@ func isPlainLiteral
+//@   props C19
+//@   requires re != nil
+//@   ensures result <==> plainLit(re)
+//@   loop 1: invariant -1 <= rangeindex && rangeindex < rangelen && rangelen == len(re.Rune) && (forall k :: 0 <= k && k <= rangeindex ==> re.Rune[k] != 10)
+//@   loop 1: decreases rangelen - rangeindex
+//@ func isDotStarLiteralSet
+//@   props C19
+//@   opt elems_nonnil=regexp/syntax.Regexp
+//@   opt safety=off
+//@   requires re != nil
+//@   ghost core = re
+//@   loop 1: invariant re != nil
+//@   loop 1: exit ghost core = re
+//@   ensures result ==> core != nil && core.Op == 18 && len(core.Sub) >= 2 && core.Sub[0].Op == 14 && (core.Sub[0].Flags & 32) == 0 && len(core.Sub[0].Sub) == 1 && core.Sub[0].Sub[0].Op == 5
+//@   ensures result ==> (forall m :: 1 <= m && m < len(core.Sub) - 1 ==> plainLit(core.Sub[m]))
+//@   loop 2: invariant -1 <= rangeindex && rangeindex < rangelen && rangelen == len(core.Sub) - 2 && core != nil && core.Op == 18 && len(core.Sub) >= 2 && core.Sub[0].Op == 14 && (core.Sub[0].Flags & 32) == 0 && len(core.Sub[0].Sub) == 1 && core.Sub[0].Sub[0].Op == 5 && re == core
+//@   loop 2: invariant forall m :: 1 <= m && m <= rangeindex + 1 ==> plainLit(core.Sub[m])
